@@ -252,13 +252,36 @@ class LawsProperty:
     def execute(self, case):
         return execute(case)
 
+    @staticmethod
+    def _premise_holds(case, doc: str) -> bool:
+        """A smaller document must still satisfy the law's premise: L3 / L4 speak about *existing* paths."""
+        if case["law"] not in ("L3", "L4"):
+            return True
+        from .model import PathError, PathUnspecified, parse_npath
+
+        dec = reader.decode(doc)
+        if dec.error or not dec.shape.editable:
+            return False
+        ops = case["ops"][:1] if case["law"] == "L3" else case["ops"]
+        for op in ops:
+            try:
+                depth, segs = parse_npath(op["path"])
+            except (PathError, PathUnspecified):
+                return False
+            if depth > len(dec.layers):
+                return False
+            members = dec.target if depth == 0 else dec.layers[depth - 1]
+            if not any(k == "leaf" and tuple(p) == tuple(segs) for p, k, _ in gen.paths_in(members)):
+                return False
+        return True
+
     def shrink_candidates(self, case):
         lines = case["doc"].split("\n")
         size = max(1, len(lines) // 2)
         while size >= 1:
             for start in range(0, len(lines), size):
                 doc = "\n".join(lines[:start] + lines[start + size:])
-                if doc != case["doc"] and doc.strip() and not reader.Doc(doc).has_error() and not reader.EMPTY_LET.search(doc):
+                if doc != case["doc"] and doc.strip() and not reader.Doc(doc).has_error() and not reader.EMPTY_LET.search(doc) and self._premise_holds(case, doc):
                     c = dict(case)
                     c["doc"] = doc
                     yield c
